@@ -16,7 +16,10 @@ use std::time::Instant;
 #[global_allocator]
 static GLOBAL: infra::alloc::CountingAlloc = infra::alloc::CountingAlloc;
 
-pub const VERIF_DIR: &str = "/verif";
+/// root of the verification tree (evidence, replays, known findings, target dir)
+pub fn verif_dir() -> String {
+    std::env::var("PDS_VERIF_DIR").unwrap_or_else(|_| "/verif".to_string())
+}
 
 #[cfg(debug_assertions)]
 pub const PROFILE: &str = "mondbg";
@@ -112,7 +115,7 @@ fn watchdog(ctx: &Ctx) {
 
 /// Run the mondbg binary for the debug-assertion clauses and return its report.
 pub fn run_dbg_sub(ctx: &Ctx) -> Result<Report, String> {
-    let exe = format!("{}/target/mondbg/pdsmon", VERIF_DIR);
+    let exe = format!("{}/target/mondbg/pdsmon", verif_dir());
     if !std::path::Path::new(&exe).exists() {
         return Err(format!("{} not built", exe));
     }
@@ -184,7 +187,7 @@ fn main() {
                     Err(e) => rep.inconclusive.push(format!("mondbg part: {}", e)),
                 }
             }
-            let fin = infra::finish(&ctx, &rep, p.rule, p.assumptions, start, VERIF_DIR);
+            let fin = infra::finish(&ctx, &rep, p.rule, p.assumptions, start, &verif_dir());
             std::process::exit(fin.exit_code);
         }
         "sub" => {
